@@ -39,6 +39,15 @@ KINDS = {
 }
 
 
+# Ordered synchronisation events per function (kind "lock_order"): the lock-event table of the
+# abstract lock model (ConcL.lean) is a hand transcription of these sequences, so a reordering,
+# an added acquisition or a lost release changes the recorded string even if the counts stay.
+ORDER_RX = re.compile(
+    r"\.(lock)\(\)|\.(read)\(\)|\.(write)\(\)|(compare_exchange)\s*\(|\.(try_send|try_recv|send|recv)\s*\(|"
+    r"(is_sync_running)\s*\.\s*store|\b(drop)\s*\(|\bcache\s*\.\s*(get|insert|entry|remove|remove_if|iter|contains_key)\s*\(|"
+    r"\.(try_sync|sync|apply_reads_writes_if_needed|record_read_op|schedule_write_op)\s*\(")
+
+
 def strip_guarded(text):
     """Removes items under #[cfg(test)] / #[cfg(mini_moka_verif)] (brace matched) and comments."""
     out, i, n = [], 0, len(text)
@@ -92,6 +101,10 @@ def inventory():
                 if c:
                     key = f"{rel}|{fn}|{kind}"
                     inv[key] = inv.get(key, 0) + c
+            for m in ORDER_RX.finditer(line):
+                tok = next(g for g in m.groups() if g)
+                key = f"{rel}|{fn}|lock_order"
+                inv[key] = (inv[key] + ">" if key in inv else "") + tok
     return inv
 
 
@@ -113,7 +126,8 @@ def main():
             continue
         a, b = base.get(key, 0), inv.get(key, 0)
         if a != b:
-            problems.append(f"{key}: model was written against {a} site(s), source now has {b}")
+            what = "sequence" if kind == "lock_order" else "site(s)"
+            problems.append(f"{key}: model was written against {a} {what}, source now has {b}")
     print(json.dumps({"ok": not problems, "problems": problems, "sites": len(inv)}))
     return 0
 
